@@ -192,7 +192,7 @@ def run(tier: str, seed: int) -> Dict[str, Any]:
             raise tlc.TlcError("HashCanon violated: " + mc["violation"])
         g = os.path.join(d, "gen.cfg")
         open(g, "w").write(CFG.format(steps=5, gen="TRUE", checks="INVARIANT GenInv"))
-        behs = engine.gen_behaviours("HashCanon", g, num=150 if q else 2500, depth=12, seed=seed + 5)
+        behs = engine.gen_behaviours("HashCanon", g, num=150 if q else 1200, depth=12, seed=seed + 5)
         if q and len(behs) > 260:
             behs = rnd.sample(behs, 260)
         cache: Dict[str, str] = {}
